@@ -63,7 +63,11 @@ pub fn exec(op: &str, a: &Value) -> Option<Value> {
         // date/time part of a ZonedDateTime partial in a fixed-offset zone: the local fields the zone reports back and the instant
         "ZonedDateTime.from_partial" => run(|| FS.with(|pr| {
             let tz = TimeZone::try_from_str(js::s(a, "tz"))?;
-            let p = PartialZonedDateTime::new().with_date(partial_date(&a["p"])?).with_time(partial_time(&a["p"])).with_timezone(Some(tz));
+            let mut p = PartialZonedDateTime::new().with_date(partial_date(&a["p"])?).with_time(partial_time(&a["p"])).with_timezone(Some(tz));
+            if let Some(m) = a.get("xoff").and_then(|x| x.as_i64()) {
+                let text = format!("{}{:02}:{:02}", if m < 0 { '-' } else { '+' }, m.abs() / 60, m.abs() % 60);
+                p = p.with_offset(Some(UtcOffset::from_str(&text)?));
+            }
             let z = ZonedDateTime::from_partial_with_provider(p, arg_ovf(a), None, None, pr)?;
             let dt = z.to_plain_datetime_with_provider(pr)?;
             Ok((z, dt))
